@@ -372,6 +372,17 @@ def query_step(sc):
         mode = sc.get('queries')
         if chart.is_in(foreign):
             raise QueryFailure('is_in(<not a state>) is True')
+        if (k + cur) % 3 == 0:
+            # top encloses every state; each mention of chart.top is a new bound-method object
+            if not chart.is_in(chart.top):
+                raise QueryFailure('after step %d: is_in(chart.top) is False in st%d' % (k, cur))
+            outer = [x for x in path if x != -1][-1]
+            try:
+                ch = chart.child_state(chart.top)
+            except AssertionError:
+                raise QueryFailure('after step %d: child_state(chart.top) failed in st%d' % (k, cur))
+            if ch is not handlers[outer] and ch is not raw[outer]:
+                raise QueryFailure('after step %d: child_state(chart.top) is not the outermost active state st%d' % (k, outer))
         rq = random.Random(len(parent) * 131 + k * 17 + cur)
         order = list(range(len(parent)))
         rq.shuffle(order)
